@@ -1,0 +1,67 @@
+//go:build verif
+
+package block
+
+// Contracts for govc (/verif). Comment-only file: no executable code, not part of the default build.
+
+/*@
+// ---- C19: a block body is accepted only if it matches its header ----
+
+// hash of a body miniblock as the processor computes it: hasher.Compute(marshalizer.Marshal(mb))
+spec fn mbHash(bp *baseProcessor, mb *block.MiniBlock) []byte = bp.hasher.Compute(marshalStr(bp.marshalizer, iface(mb)))
+
+// CalculateHash reports an error for miniblock mb
+spec fn hashFails(bp *baseProcessor, mb *block.MiniBlock) bool = isNil(bp.marshalizer) || isNil(bp.hasher) || marshalFails(bp.marshalizer, iface(mb))
+
+// header entry h describes body miniblock mb: same hash, sender shard, receiver shard, type and transaction count
+spec fn describes(bp *baseProcessor, h block.MiniBlockHeader, mb *block.MiniBlock) bool = str(h.Hash) == str(mbHash(bp, mb)) && h.SenderShardID == mb.SenderShardID && h.ReceiverShardID == mb.ReceiverShardID && h.Type == mb.Type && h.TxCount == uint32(len(mb.TxHashes))
+
+// txSum(mbs, j): number of transaction hashes in miniblocks [0, j)
+spec fn txSum(mbs []*block.MiniBlock, j int) int
+  axiom txSum(mbs, 0) == 0
+  axiom j > 0 ==> txSum(mbs, j) == txSum(mbs, j-1) + len(mbs[j-1].TxHashes)
+
+func (bp *baseProcessor) createMiniBlockHeaders(body *block.Body) (n int, hdrs []block.MiniBlockHeader, err error)
+  requires body != nil
+  requires no-nil-miniblock: forall k :: 0 <= k && k < len(body.MiniBlocks) ==> body.MiniBlocks[k] != nil
+  requires miniblock-count-below-2^31: len(body.MiniBlocks) < 2147483648
+  requires tx-count-fits-uint32: forall k :: 0 <= k && k < len(body.MiniBlocks) ==> len(body.MiniBlocks[k].TxHashes) < 4294967296
+  ensures  same-number: err == nil ==> len(hdrs) == len(body.MiniBlocks)
+  ensures  entry-describes-miniblock: err == nil ==> (forall k :: 0 <= k && k < len(hdrs) ==> describes(bp, hdrs[k], body.MiniBlocks[k]))
+  ensures  total: err == nil ==> n == txSum(body.MiniBlocks, len(body.MiniBlocks))
+  ensures  fails-only-if-hashing-fails: err != nil ==> (exists k :: 0 <= k && k < len(body.MiniBlocks) && hashFails(bp, body.MiniBlocks[k]))
+  assigns  nothing
+
+loop 1
+  invariant 0 <= i && i <= len(body.MiniBlocks)
+  invariant len(miniBlockHeaders) == len(body.MiniBlocks) && fresh(miniBlockHeaders)
+  invariant totalTxCount == txSum(body.MiniBlocks, i)
+  invariant forall k :: 0 <= k && k < i ==> describes(bp, miniBlockHeaders[k], body.MiniBlocks[k])
+  invariant 0 <= totalTxCount && totalTxCount <= i * 4294967295
+
+// --- acceptance direction: checkHeaderBodyCorrelation ---
+
+// header entry h lists body miniblock mb, the miniblock type left aside
+spec fn listsIgnoringType(bp *baseProcessor, h block.MiniBlockHeader, mb *block.MiniBlock) bool = str(h.Hash) == str(mbHash(bp, mb)) && h.SenderShardID == mb.SenderShardID && h.ReceiverShardID == mb.ReceiverShardID && h.TxCount == uint32(len(mb.TxHashes))
+
+func (bp *baseProcessor) checkHeaderBodyCorrelation(miniBlockHeaders []block.MiniBlockHeader, body *block.Body) (err error)
+  requires body != nil
+  ensures  same-number: err == nil ==> len(miniBlockHeaders) == len(body.MiniBlocks)
+  ensures  no-nil-miniblock: err == nil ==> (forall k :: 0 <= k && k < len(body.MiniBlocks) ==> body.MiniBlocks[k] != nil)
+  ensures  every-miniblock-listed: err == nil ==> (forall k :: 0 <= k && k < len(body.MiniBlocks) ==> (exists j :: 0 <= j && j < len(miniBlockHeaders) && listsIgnoringType(bp, miniBlockHeaders[j], body.MiniBlocks[k])))
+  ensures  type: err == nil ==> (forall k :: 0 <= k && k < len(body.MiniBlocks) ==> (exists j :: 0 <= j && j < len(miniBlockHeaders) && describes(bp, miniBlockHeaders[j], body.MiniBlocks[k])))
+  ensures  injective: err == nil ==> (forall k, l :: 0 <= k && k < l && l < len(body.MiniBlocks) ==> str(mbHash(bp, body.MiniBlocks[k])) != str(mbHash(bp, body.MiniBlocks[l])))
+  assigns  nothing
+
+loop 1
+  invariant 0 <= i && i <= len(miniBlockHeaders)
+  invariant forall k :: 0 <= k && k < len(body.MiniBlocks) && has(mbHashesFromHdr, str(mbHash(bp, body.MiniBlocks[k]))) ==> pointsInto(mbHashesFromHdr[str(mbHash(bp, body.MiniBlocks[k]))], miniBlockHeaders)
+  invariant forall k :: 0 <= k && k < len(body.MiniBlocks) && has(mbHashesFromHdr, str(mbHash(bp, body.MiniBlocks[k]))) ==> str(mbHash(bp, body.MiniBlocks[k])) == str(miniBlockHeaders[elemIndex(mbHashesFromHdr[str(mbHash(bp, body.MiniBlocks[k]))], miniBlockHeaders)].Hash)
+
+loop 2
+  invariant 0 <= i && i <= len(body.MiniBlocks) && len(miniBlockHeaders) == len(body.MiniBlocks)
+  invariant forall k :: 0 <= k && k < i ==> body.MiniBlocks[k] != nil
+  invariant forall k :: 0 <= k && k < i ==> has(mbHashesFromHdr, str(mbHash(bp, body.MiniBlocks[k]))) && pointsInto(mbHashesFromHdr[str(mbHash(bp, body.MiniBlocks[k]))], miniBlockHeaders) && listsIgnoringType(bp, miniBlockHeaders[elemIndex(mbHashesFromHdr[str(mbHash(bp, body.MiniBlocks[k]))], miniBlockHeaders)], body.MiniBlocks[k])
+  invariant type: forall k :: 0 <= k && k < i ==> miniBlockHeaders[elemIndex(mbHashesFromHdr[str(mbHash(bp, body.MiniBlocks[k]))], miniBlockHeaders)].Type == body.MiniBlocks[k].Type
+  invariant injective: forall k, l :: 0 <= k && k < l && l < i ==> str(mbHash(bp, body.MiniBlocks[k])) != str(mbHash(bp, body.MiniBlocks[l]))
+@*/
